@@ -285,6 +285,22 @@ def replay(cand):
             if b3.tobytes() != t.tobytes():
                 return "generic front end does not return the written bytes"
             return None
+        if what == "xx_read_header":
+            # rows that begin with the newline byte (or any byte the model picked): the header ends where it ends
+            from vf.symx import model_float as _mfl
+            d0 = int(_mfl((cand.get("model") or {}).get("d0", 10)))
+            for first in sorted({d0 % 256, 10}):
+                t = np.zeros(3, dtype=[("a", "u1"), ("b", "<i4")])
+                t["a"] = [first, 10, 7]
+                t["b"] = [10, 2570, -1]
+                fn = os.path.join(d, "nl_%d.rec" % first)
+                sfile.write(t, fn, header={"k": 1})
+                try:
+                    back, h = sfile.read(fn, header=True)
+                except Exception as e:
+                    return {"reproduced": True, "key": "header-offset", "what": "a table whose first row begins with byte %d: reading back raised %s: %s" % (first, type(e).__name__, str(e)[:200])}
+                if back.tobytes() != t.tobytes() or h.get("k") != 1:
+                    return {"reproduced": True, "key": "header-offset", "what": "a table whose first row begins with byte %d does not come back bit-for-bit" % first}
         if what in ("xx_read_header", "py_header_roundtrip", "py_make_header"):
             for i, hu in enumerate([{"note": "the END"}, {"END": 1}, {"k": "xENDy"}, None] + TRICKY):
                 for j, descr in enumerate(DESCRS + [[("x", "<i4")]]):
